@@ -74,7 +74,7 @@ func NewRegion(p *Prog, root *ssa.Function, depth int) *Region {
 				if !ok {
 					continue
 				}
-				sc := ci.Common().StaticCallee()
+				sc, _ := calleeOf(ci.Common())
 				if sc == nil || !r.in[sc] || sc == root || onPath[sc] {
 					continue
 				}
